@@ -1,7 +1,7 @@
 (* C09 -- Arithmetic primitives agree with their mathematical definition.
    Property theorems only: each is closed by `exact <lemma>` and followed by Print Assumptions. *)
-From Coq Require Import ZArith Znumtheory List Lia.
-From LT Require Import gen_Consts Zbase PowmModel PowmLemmas SqrtModel SqrtLemmas InterpModel InterpLemmas.
+From Coq Require Import ZArith Znumtheory List Lia Bool.
+From LT Require Import gen_Consts Zbase PowmModel PowmLemmas SqrtModel SqrtLemmas InterpModel InterpLemmas PrimeModel PrimeLemmas.
 Import ListNotations.
 Local Open Scope Z_scope.
 
@@ -165,6 +165,38 @@ Theorem C09_interpolate_collision_false : forall q, prime q -> forall pre post a
 Proof. exact interpolate_collision. Qed.
 Print Assumptions C09_interpolate_collision_false.
 
+(* prime generators: postconditions of the acceptance logic, for every primality oracle is_prime (Miller-Rabin in the code).
+   tmcg_mpz_lprime is modelled completely (candidates are inputs); for the safe-prime search the start value and the final
+   acceptance are modelled (the rejection-only sieves are not), see PrimeModel.v *)
+Theorem C09_lprime_post : forall is_prime psize qsize qcands kcands p q k,
+  lprime_run is_prime psize qsize qcands kcands = GenOk p q k ->
+  p = q * k + 1 /\ Z.even k = true /\ Z.gcd k q = 1 /\ psize <= bitlen p /\ qsize <= bitlen q /\
+  is_prime p = true /\ is_prime q = true /\ qsize < psize.
+Proof. exact lprime_post. Qed.
+Print Assumptions C09_lprime_post.
+
+Theorem C09_lprime_sizes_throw : forall is_prime psize qsize qcands kcands, psize <= qsize ->
+  lprime_run is_prime psize qsize qcands kcands = GenThrow.
+Proof. exact lprime_sizes_throw. Qed.
+Print Assumptions C09_lprime_sizes_throw.
+
+Theorem C09_sprime_post : forall is_prime t qsize qraw q p, 0 <= qraw ->
+  sprime_accepts is_prime t qsize qraw q p = true ->
+  p = 2 * q + 1 /\ Z.odd q = true /\ qsize <= bitlen q /\ qsize + 1 <= bitlen p /\
+  extra_test t p = true /\ is_prime q = true /\ (powm 2 q p = 1 \/ powm 2 q p = p - 1).
+Proof. exact sprime_post. Qed.
+Print Assumptions C09_sprime_post.
+
+Theorem C09_sprime3mod4_post : forall is_prime psize qraw q p, 0 <= qraw ->
+  sprime_accepts is_prime Test3mod4 (psize - 1) qraw q p = true -> p mod 4 = 3 /\ psize <= bitlen p /\ p = 2 * q + 1.
+Proof. exact sprime3mod4_post. Qed.
+Print Assumptions C09_sprime3mod4_post.
+
+Theorem C09_sprime2g_post : forall is_prime qsize qraw q p, 0 <= qraw ->
+  sprime_accepts is_prime Test7mod8 qsize qraw q p = true -> p mod 8 = 7 /\ p = 2 * q + 1 /\ qsize <= bitlen q.
+Proof. exact sprime2g_post. Qed.
+Print Assumptions C09_sprime2g_post.
+
 (* non-vacuity *)
 Example C09_nonvacuous_spowm : spowm 2 7 7 = Ok 2 /\ spowm 2 3 9 = Ok 8 /\ spowm 3 (-2) 7 = Ok 4.
 Proof. repeat split; reflexivity. Qed.
@@ -176,6 +208,8 @@ Proof.
   repeat (destruct C as [-> | C]; [reflexivity|]). subst n. reflexivity.
 Qed.
 Example C09_nonvacuous_interp : interpolate [(1, 2); (3, 1); (5, 6)] 7 = IpOk [3; 0; 6].
+Proof. vm_compute. reflexivity. Qed.
+Example C09_nonvacuous_lprime : lprime_run (fun z => (z =? 11) || (z =? 23)) 5 4 [9; 11] [1; 3; 2] = GenOk 23 11 2.
 Proof. vm_compute. reflexivity. Qed.
 Example C09_nonvacuous_blum : 3 * 7 + (-2) * 11 = -1 + 0 /\ (-3) * 7 + 2 * 11 = 1 /\ sqrtmn_fast 4 7 11 77 (-21) 22 2 3 = 9.
 Proof. repeat split; reflexivity. Qed.
